@@ -59,6 +59,17 @@ func StructFieldsOf(prog *ssa.Program) map[string][][2]string {
 			for i := 0; i < st.NumFields(); i++ {
 				out[key] = append(out[key], [2]string{st.Field(i).Name(), types.TypeString(st.Field(i).Type(), nil)})
 			}
+			// declared methods, as pseudo-fields "()Name": they tell field-less types apart
+			var ms [][2]string
+			for i := 0; i < named.NumMethods(); i++ {
+				m := named.Method(i)
+				ms = append(ms, [2]string{"()" + m.Name(), SigKey(m.Type().(*types.Signature))})
+			}
+			sort.Slice(ms, func(i, j int) bool { return ms[i][0] < ms[j][0] })
+			out[key] = append(out[key], ms...)
+			if len(out[key]) == 0 {
+				out[key] = [][2]string{}
+			}
 		}
 	}
 	return out
@@ -124,6 +135,9 @@ func typeAliases(prog *ssa.Program) []string {
 
 // canonName is fn.String() with renamed receiver types put back.
 func canonName(fn *ssa.Function) string {
+	if a, ok := FuncAlias[fn]; ok {
+		return a
+	}
 	n := fn.String()
 	for nw, old := range TypeAlias {
 		n = strings.ReplaceAll(n, nw+")", old+")")
@@ -163,13 +177,13 @@ func fieldAliases(prog *ssa.Program) []string {
 		}
 		goneByType := map[string][]string{}
 		for _, f := range was {
-			if !has[f[0]] {
+			if !has[f[0]] && !strings.HasPrefix(f[0], "()") {
 				goneByType[f[1]] = append(goneByType[f[1]], f[0])
 			}
 		}
 		newByType := map[string][]string{}
 		for _, f := range now {
-			if !had[f[0]] {
+			if !had[f[0]] && !strings.HasPrefix(f[0], "()") {
 				newByType[f[1]] = append(newByType[f[1]], f[0])
 			}
 		}
@@ -202,9 +216,12 @@ var baselineSet = func() map[string]bool {
 	for _, l := range strings.Split(baselineFuncs, "\n") {
 		if l = strings.TrimSpace(l); l != "" && !strings.HasPrefix(l, "#") {
 			name := l
-			if i := strings.Index(l, "\t"); i >= 0 {
-				name = l[:i]
-				baselineSig[name] = l[i+1:]
+			if parts := strings.Split(l, "\t"); len(parts) >= 2 {
+				name = parts[0]
+				baselineSig[name] = parts[1]
+				if len(parts) >= 3 {
+					baselineFullSig[name] = parts[2]
+				}
 			}
 			m[name] = true
 		}
@@ -213,6 +230,7 @@ var baselineSet = func() map[string]bool {
 }()
 
 var baselineSig = map[string]string{}
+var baselineFullSig = map[string]string{}
 
 // SigKey renders a signature without parameter names (renaming a parameter is not a different function).
 func SigKey(sig *types.Signature) string {
@@ -236,6 +254,36 @@ func SigKey(sig *types.Signature) string {
 	}
 	b.WriteString(")")
 	return b.String()
+}
+
+// FuncAlias gives, for a function recognised as a baseline function in another form (method turned into a
+// plain function or the reverse, possibly renamed on the way), the baseline's ssa name. an.FuncName renders it.
+var FuncAlias = map[*ssa.Function]string{}
+
+// FullSigKey is SigKey with the receiver, if any, counted as the first parameter.
+func FullSigKey(sig *types.Signature) string {
+	k := SigKey(sig)
+	if r := sig.Recv(); r != nil {
+		rt := types.TypeString(r.Type(), nil)
+		if strings.HasPrefix(k, "()") {
+			return "(" + rt + k[1:]
+		}
+		return "(" + rt + "," + k[1:]
+	}
+	return k
+}
+
+func pkgOfName(name string) string {
+	n := strings.TrimPrefix(strings.TrimPrefix(name, "("), "*")
+	if i := strings.LastIndex(n, "/"); i >= 0 {
+		if j := strings.Index(n[i:], "."); j >= 0 {
+			return n[:i+j]
+		}
+	}
+	if j := strings.Index(n, "."); j >= 0 {
+		return n[:j]
+	}
+	return n
 }
 
 // owner is the part of an ssa function name that a rename cannot change: package and receiver.
@@ -297,12 +345,42 @@ func normalise(prog *ssa.Program) (map[*ssa.Function]bool, *ssa.VerifNorm, []str
 				goneBy[k] = append(goneBy[k], name)
 			}
 		}
+		matched := map[string]bool{}
+		matchedFn := map[*ssa.Function]bool{}
 		for k, gone := range goneBy {
 			if len(gone) == 1 && len(newBy[k]) == 1 {
 				fn := newBy[k][0]
 				old := gone[0]
 				renames = append(renames, fn.String()+": taken to be the renamed "+old)
 				ssa.VerifRename(fn, old[strings.LastIndex(old, ".")+1:])
+				matched[old], matchedFn[fn] = true, true
+			}
+		}
+		// second pass: a method turned into a function taking the receiver first (or the reverse), possibly
+		// renamed on the way: same package, same parameter list once the receiver is counted as a parameter
+		new2 := map[string][]*ssa.Function{}
+		for _, fn := range fns {
+			if !baselineSet[canonName(fn)] && !matchedFn[fn] {
+				sk := FullSigKey(fn.Signature)
+				for nw, old := range TypeAlias {
+					sk = strings.ReplaceAll(sk, nw, old)
+				}
+				k := fn.Pkg.Pkg.Path() + "|" + sk
+				new2[k] = append(new2[k], fn)
+			}
+		}
+		gone2 := map[string][]string{}
+		for name := range baselineSet {
+			if !present[name] && !matched[name] && baselineFullSig[name] != "" {
+				k := pkgOfName(name) + "|" + baselineFullSig[name]
+				gone2[k] = append(gone2[k], name)
+			}
+		}
+		for k, gone := range gone2 {
+			if len(gone) == 1 && len(new2[k]) == 1 {
+				fn := new2[k][0]
+				FuncAlias[fn] = gone[0]
+				renames = append(renames, fn.String()+": taken to be "+gone[0]+" in another form")
 			}
 		}
 	}
